@@ -189,3 +189,98 @@ Definition observed_is_interleaving (per_op : list (list N)) (observed : list (n
   Nat.eqb (length out) (length (concat per_op))
   && forallb (fun pq => Nat.eqb (fst (fst pq)) (fst (snd pq)) && N.eqb (snd (fst pq)) (snd (snd pq))) (combine out observed)
   && Nat.eqb (length out) (length observed).
+
+(* ---- process-wide state carried from one run to the next in the same process ----
+   A carried site is a process-wide mutable object (module-level dict, the return value of an lru_cache-d function, a class-level
+   attribute) that generation code writes and reads.  The sites of the CURRENT source are generated into Gen_C13.gen_carried by
+   harness/props/c13_translate.py (process_state_scan + the lru_cache-d functions), each with its discipline:
+     Memo       an entry is written only when absent and its content is a function of its key (lru_cache on a pure function, a
+                cache keyed by the identity of a per-run object)
+     Registry   written by the user between runs through a public registration function (part of the configuration), never by a run
+     RunWritten anything else: a run writes what its own configuration says and a later run reads what was left *)
+Inductive cclass := Memo | Registry | RunWritten.
+
+Record csite := mkCSite {
+  c_id : N;
+  c_class : cclass;
+  c_phases : list phase;      (* phases whose requests can depend on the content *)
+  c_in_request : bool         (* false: the content never reaches a request (report sanitisation, hook specifications, ...) *)
+}.
+
+Definition c_safe (c : csite) : bool := match c_class c with RunWritten => false | _ => true end.
+Definition c_reads (c : csite) (x : ctx) : bool := in_phases (x_phase x) (c_phases c) && c_in_request c.
+
+(* region predicates *)
+Definition carried_safe (cs : list csite) (x : ctx) : bool := forallb (fun c => negb (c_reads c x) || c_safe c) cs.
+Definition carried_unsafe_active (cs : list csite) (x : ctx) : bool := existsb (fun c => c_reads c x && negb (c_safe c)) cs.
+Definition unsafe_ids (cs : list csite) (x : ctx) : list N := map c_id (filter (fun c => c_reads c x && negb (c_safe c)) cs).
+Definition unsafe_table (cs : list csite) : list (list N) := map (unsafe_ids cs) all_ctxs.
+Definition works_carried_safe (cs : list csite) (ws : list work) : bool := forallb (fun w => carried_safe cs (w_ctx w)) ws.
+
+Fixpoint ids_distinct_from (seen : list N) (l : list N) : bool :=
+  match l with
+  | [] => true
+  | i :: l' => negb (existsb (N.eqb i) seen) && ids_distinct_from (i :: seen) l'
+  end.
+Definition ids_distinct (cs : list csite) : bool := ids_distinct_from [] (map c_id cs).
+
+(* the inputs of a run: the property says the traffic is a function of these *)
+Record rin := mkRin { r_seed : N; r_schema : N; r_cfg : N }.
+
+(* the state of the process: carrier id -> key -> content; a fresh process has nothing *)
+Definition store := N -> N -> option N.
+Definition empty_store : store := fun _ _ => None.
+Definition upd (st : store) (c k v : N) : store :=
+  fun c' k' => if (N.eqb c c' && N.eqb k k')%bool then Some v else st c' k'.
+
+Section Carried.
+  Variable key : N -> rin -> N.          (* which entry of a carrier a run touches: any function of the run *)
+  Variable pure : N -> N -> N.           (* Memo: the content of an entry is a function of its key *)
+  Variable wr : N -> rin -> option N.    (* RunWritten: what this run writes, if it writes *)
+
+  Definition step_site (r : rin) (st : store) (c : csite) : store :=
+    let k := key (c_id c) r in
+    match c_class c with
+    | Memo => match st (c_id c) k with Some _ => st | None => upd st (c_id c) k (pure (c_id c) k) end
+    | Registry => st
+    | RunWritten => match wr (c_id c) r with Some v => upd st (c_id c) k v | None => st end
+    end.
+
+  (* what one run does to the process; the state after a history of runs in a fresh process *)
+  Definition step_run (cs : list csite) (st : store) (r : rin) : store := fold_left (step_site r) cs st.
+  Definition after (cs : list csite) (hist : list rin) : store := fold_left (step_run cs) hist empty_store.
+
+  Definition read_site (r : rin) (st : store) (c : csite) : option N := st (c_id c) (key (c_id c) r).
+  Definition reads (cs : list csite) (r : rin) (st : store) (x : ctx) : list (option N) :=
+    map (read_site r st) (filter (fun c => c_reads c x) cs).
+
+  (* schema, configuration and the contents read from the carried sites give the generator of run *)
+  Variable genp : N -> N -> list (option N) -> N -> N -> N -> N -> N.
+
+  Definition run_in (p : plan) (cs : list csite) (r : rin) (a : ambient) (st : store) : list request :=
+    let st' := step_run cs st r in
+    flat_map (fun w => run_work (genp (r_schema r) (r_cfg r) (reads cs r st' (w_ctx w))) (fst p) (r_seed r) a w) (snd p).
+
+  (* the traffic of run r when the runs of hist preceded it in the same process; hist = [] is a fresh process *)
+  Definition traffic_after (p : plan) (cs : list csite) (hist : list rin) (r : rin) (a : ambient) : list request :=
+    run_in p cs r a (after cs hist).
+End Carried.
+
+(* checked against snapshots of the real carriers taken around real runs (site id, key token, value token): an entry that exists
+   before and after a run has the same content - what step_site does for Memo and Registry sites *)
+Definition entry := (N * N * N)%type.
+Definition same_slot (e e' : entry) : bool := N.eqb (fst (fst e)) (fst (fst e')) && N.eqb (snd (fst e)) (snd (fst e')).
+Definition entries_not_overwritten (before after_ : list entry) : bool :=
+  forallb (fun e => forallb (fun e' => negb (same_slot e e') || N.eqb (snd e) (snd e')) after_) before.
+Definition overwritten_sites (before after_ : list entry) : list N :=
+  map (fun e => fst (fst e)) (filter (fun e => existsb (fun e' => same_slot e e' && negb (N.eqb (snd e) (snd e'))) after_) before).
+(* Registry sites and module-level constants: a run changes nothing at all *)
+Definition entry_eqb (e e' : entry) : bool := same_slot e e' && N.eqb (snd e) (snd e').
+Definition entries_same (before after_ : list entry) : bool :=
+  forallb (fun e => existsb (entry_eqb e) after_) before && forallb (fun e => existsb (entry_eqb e) before) after_.
+Definition changed_sites (before after_ : list entry) : list N :=
+  map (fun e => fst (fst e)) (filter (fun e => negb (existsb (entry_eqb e) after_)) before)
+  ++ map (fun e => fst (fst e)) (filter (fun e => negb (existsb (entry_eqb e) before)) after_).
+(* the store of the model as a list of entries, for the correspondence *)
+Definition store_entries (st : store) (slots : list (N * N)) : list entry :=
+  flat_map (fun ck => match st (fst ck) (snd ck) with Some v => [(fst ck, snd ck, v)] | None => [] end) slots.
